@@ -4,3 +4,9 @@ import "lndlint/internal/flow"
 
 // FlowVertex is the vertex type of the flow graph, re-exported for spec code.
 type FlowVertex = flow.Vertex
+
+// FlowEdge is the edge type of the flow graph, re-exported for spec code.
+type FlowEdge = flow.Edge
+
+// FlowEdgeSet is a set of edges to cut.
+type FlowEdgeSet = flow.EdgeSet
